@@ -265,6 +265,12 @@ func (r *Reporter) Finish(verifDir string, known *KnownFile, ctl *ctlResult) int
 	if vl != nil {
 		cov["violation_list"] = vl
 	}
+	if r.Assumptions == nil {
+		r.Assumptions = []string{}
+	}
+	if r.Trusted == nil {
+		cov["trusted_base"] = []string{}
+	}
 	ev := map[string]any{
 		"property_id": r.Prop,
 		"tier":        r.Tier,
